@@ -343,6 +343,9 @@ def run(ctx) -> None:
     from checks.c01 import full_match_rule
     for eng in ("v2version", "v1version"):
         full_match_rule(ctx, eng, "R3")
+    # "tags that do not match the pattern never influence the result": a part recognises nothing beyond its documented shape
+    from checks.c02 import part_language_band_rule, V2_PART_REF, V2_PART_REF_MAX
+    part_language_band_rule(ctx, "R3", "v2patterns", V2_PART_REF, V2_PART_REF_MAX)
 
     # ---------------------------------------------------------------- R4
     esc = Escapes(prog)
